@@ -195,8 +195,8 @@ Print Assumptions C15_lane_never_zero.
    proposed global order are untrusted; the scheduler takes an action only if the model state holds the value the
    implementation observed, the model step is enabled, and it produces the recorded words / program point / latched and
    delivered value.  Whatever it is given, it only takes steps of the model: *)
-Theorem C15_replay_reach : forall c L depths w0 inst fuel w s qs ord done ok s' done' rest ok' qs',
-  SrcLaneR_proofs.reachw c w0 inst s -> SrcLaneR.sched c L depths fuel w s qs ord done ok = (s', done', rest, ok', qs') ->
+Theorem C15_replay_reach : forall c L depths w0 inst fuel w ns np s qs ord done ok s' done' rest ok' qs',
+  SrcLaneR_proofs.reachw c w0 inst s -> SrcLaneR.sched c L depths fuel w ns np s qs ord done ok = (s', done', rest, ok', qs') ->
   SrcLaneR_proofs.reachw c w0 inst s'.
 Proof. exact SrcLaneR_proofs.sched_reach. Qed.
 Print Assumptions C15_replay_reach.
@@ -204,7 +204,7 @@ Print Assumptions C15_replay_reach.
    state a replay passes through is a reachable state of the model that satisfies it *)
 Theorem C15_replay_sound : forall c w0 inst L depths fuel w qs ord s' done' rest ok' qs',
   SrcLaneR.init_word_ok w0 = true ->
-  SrcLaneR.sched c L depths fuel w (SrcLaneR.init_from w0 inst) qs ord 0 true = (s', done', rest, ok', qs') ->
+  SrcLaneR.sched c L depths fuel w 0 0 (SrcLaneR.init_from w0 inst) qs ord 0 true = (s', done', rest, ok', qs') ->
   SrcLaneR_proofs.reachw c w0 inst s' /\ SrcLane_proofs.Inv c s'.
 Proof. exact SrcLaneR_proofs.replay_sound. Qed.
 Print Assumptions C15_replay_sound.
